@@ -314,6 +314,61 @@ func (u *Universe) rewrite(r *rng, ti *TypeInfo, entry *Field, recs []*wrec, st 
 		recs = out
 		st["permute"]++
 	}
+	// 4b. non-minimal varints INSIDE packed payloads of varint kinds (every element is its own varint)
+	if ti != nil && r.intn(3) == 0 {
+		for _, x := range recs {
+			f := x.f
+			if f == nil || x.typ != protowire.BytesType || x.hasKid || f.Label != LRepeated || f.IsMap || f.Custom != CNone {
+				continue
+			}
+			k := f.Kind
+			if k == KEnum {
+				k = KInt32
+			}
+			if k >= KString || wireOfKind(k) != protowire.VarintType {
+				continue
+			}
+			var out []byte
+			p := x.bytes
+			ok := true
+			for len(p) > 0 {
+				v, m := protowire.ConsumeVarint(p)
+				if m < 0 {
+					ok = false
+					break
+				}
+				pad := 0
+				if r.intn(2) == 0 {
+					pad = 1 + r.intn(9)
+				}
+				out = padVarint(out, v, pad)
+				p = p[m:]
+			}
+			if ok {
+				x.bytes = out
+				st["pad-packed-element"]++
+			}
+		}
+	}
+	// 4c. the same unknown number twice in a row with different wire types (a repeated scalar the
+	//     narrower schema does not know, sent partly packed and partly unpacked)
+	if r.intn(6) == 0 {
+		var num protowire.Number
+		if ti != nil {
+			num = unknownNumber(r, &ti.S.Msgs[ti.MI])
+		} else {
+			num = protowire.Number(3 + r.intn(60))
+		}
+		a := &wrec{num: num, typ: protowire.VarintType, u64: uint64(r.intn(300))}
+		b := &wrec{num: num, typ: protowire.BytesType, bytes: protowire.AppendVarint(protowire.AppendVarint(nil, 5), 300)}
+		pair := []*wrec{a, b}
+		if r.intn(2) == 0 {
+			pair = []*wrec{b, a}
+		}
+		pos := r.intn(len(recs) + 1)
+		recs = append(recs[:pos], append(pair, recs[pos:]...)...)
+		st["unknown-mixed-wire-pair"]++
+	}
 	// 5. non-minimal varints
 	if r.intn(3) == 0 {
 		for _, x := range recs {
